@@ -203,6 +203,9 @@ class SimFileIO(_RealFileIO):
         if dec is not None and dec[0] == "eacces_open":
             world.note_failed(PermissionError(), tidx)
             raise PermissionError(errno.EACCES, "Permission denied (injected)", str(path))
+        if dec is not None and dec[0] == "eio_open":
+            world.note_failed(OSError(), tidx)
+            raise OSError(errno.EIO, "Input/output error (injected)", str(path))
         try:
             super().__init__(path, mode, closefd, opener)
         except BaseException as e:
@@ -527,7 +530,9 @@ class World:
             f.where = (op, rel)
             self.count_fault(kind)
             return (kind, 0)
-        if kind == "eacces_open":
+        if kind in ("eacces_open", "eio_open"):
+            # eacces: the directory is read-only; eio: a transient error of the kind
+            # network file systems return from open(2)
             if not (op.startswith("open:") and any(c in op[5:] for c in "wxa+")):
                 return None
             f.fired = True
